@@ -164,21 +164,46 @@ func RunC12(c *sim.Ctx, pkg *C12Pkg) {
 		barrier int // >= 0: wait until every worker has fed its part of the first incarnation of this connection
 	}
 	jobs := make([][]job, nworkers)
+	// Per worker, the jobs of one connection form a sequence whose order is
+	// kept; in half of the runs the sequences of different connections are
+	// merged in a drawn order instead of following each other (connection B may
+	// open, close or be re-opened in the middle of connection A's packets).
+	interleave := c.Chance(500)
+	seqs := make([][][]job, nworkers)
+	seqOf := map[[2]int]int{}
+	addJob := func(w, conn int, j job) {
+		k, ok := seqOf[[2]int{w, conn}]
+		if !ok {
+			seqs[w] = append(seqs[w], nil)
+			k = len(seqs[w]) - 1
+			seqOf[[2]int{w, conn}] = k
+		}
+		seqs[w][k] = append(seqs[w][k], j)
+	}
+	barrierUsed := false
 	t := int64(0)
 	lostIn := map[int]bool{} // direction index -> one of its segments is lost
 	next := map[int]int{}    // direction -> its next incarnation
 	parties := map[int]int{} // connection -> number of workers at its barrier
 	gates := map[int]*sync.Mutex{}
+	loose := map[int]bool{} // connections re-opened without ordering: only the every-interleaving rules apply to them
 	for ci := 0; ci < nconn; ci++ {
 		ndir := 1 + c.Weighted(1, 4)
 		w0 := c.Draw(nworkers)
 		// a re-opened 4-tuple: once the connection has been closed by the FINs
 		// of all its directions, the same addresses and ports are used again
-		reopen := !split && !closingFlush && (ndir == 2 || !pkg.Bidir) && c.Chance(250)
+		// (one barrier per run when the connections are interleaved: two could be
+		// reached in opposite orders by two workers)
+		reopen := !split && !closingFlush && (ndir == 2 || !pkg.Bidir) && c.Chance(250) && !(interleave && barrierUsed)
 		// (with packets split across workers nothing orders the two
 		// incarnations: no barrier, no completeness demand - only the rules that
 		// hold for every interleaving)
-		reopenFree := split && (ndir == 2 || !pkg.Bidir) && c.Chance(300)
+		// (the same where a concurrent flusher closes connections: a half closed
+		// early makes the rest of an incarnation land wherever the pool puts it)
+		reopenFree := (split || closingFlush) && (ndir == 2 || !pkg.Bidir) && c.Chance(300)
+		if reopenFree {
+			loose[ci] = true
+		}
 		for inc := 0; inc < 2; inc++ {
 			if inc == 1 && reopenFree {
 				c.Fault("connection_reopened_unordered")
@@ -202,11 +227,12 @@ func RunC12(c *sim.Ctx, pkg *C12Pkg) {
 				for w := 0; w < nworkers; w++ {
 					if ws[w] {
 						t += 1000
-						jobs[w] = append(jobs[w], job{at: t, barrier: ci})
+						addJob(w, ci, job{at: t, barrier: ci})
 					}
 				}
 				parties[ci] = len(ws)
 				gates[ci] = &sync.Mutex{}
+				barrierUsed = true
 				c.Fault("connection_reopened")
 			}
 			for side := 0; side < ndir; side++ {
@@ -258,10 +284,37 @@ func RunC12(c *sim.Ctx, pkg *C12Pkg) {
 					if split {
 						ww = c.Draw(nworkers)
 					}
-					jobs[ww] = append(jobs[ww], job{pk, t, -1})
+					addJob(ww, ci, job{pk, t, -1})
 				}
 			}
 		}
+	}
+	for w := range seqs {
+		if !interleave {
+			for _, q := range seqs[w] {
+				jobs[w] = append(jobs[w], q...)
+			}
+			continue
+		}
+		left := 0
+		for _, q := range seqs[w] {
+			left += len(q)
+		}
+		for left > 0 {
+			var ne []int
+			for k, q := range seqs[w] {
+				if len(q) > 0 {
+					ne = append(ne, k)
+				}
+			}
+			k := ne[c.Draw(len(ne))]
+			jobs[w] = append(jobs[w], seqs[w][k][0])
+			seqs[w][k] = seqs[w][k][1:]
+			left--
+		}
+	}
+	if interleave && nconn > 1 {
+		c.Fault("connections_interleaved")
 	}
 	c.Ev("plan", int64(nconn), int64(len(p.Dirs)), int64(nworkers), b2i(split), b2i(flusher))
 	for _, d := range p.Dirs {
@@ -377,7 +430,7 @@ func RunC12(c *sim.Ctx, pkg *C12Pkg) {
 			}
 		}
 	}
-	checkC12(c, h, merged, pkg, split, must)
+	checkC12(c, h, merged, pkg, split, must, loose)
 	if n := pkg.PoolConns(); n != 0 {
 		c.Fail("lifecycle", "connections-left", "flush-all", "%d connections remain in the pool after the final flush-all", n)
 	}
@@ -400,7 +453,7 @@ type c12sd struct {
 }
 
 // checkC12 evaluates the merged history.
-func checkC12(c *sim.Ctx, h *C12, evs []coop.Event, pkg *C12Pkg, split bool, must map[int]bool) {
+func checkC12(c *sim.Ctx, h *C12, evs []coop.Event, pkg *C12Pkg, split bool, must map[int]bool, loose map[int]bool) {
 	p := h.Plan
 	streams := map[int]*c12st{}
 	inCall := map[int]string{}    // worker -> kind of call in progress
@@ -452,7 +505,7 @@ func checkC12(c *sim.Ctx, h *C12, evs []coop.Event, pkg *C12Pkg, split bool, mus
 		if len(data) >= 4 && !bytes.Contains(d.S, data) {
 			for _, o := range p.Dirs {
 				if o != d && bytes.Contains(o.S, data) {
-					if split && o.Conn == d.Conn && o.Side == d.Side {
+					if (split || loose[d.Conn]) && o.Conn == d.Conn && o.Side == d.Side {
 						// the same endpoint's bytes of another incarnation of the
 						// 4-tuple, with nothing ordering the incarnations: the
 						// connection cannot tell them apart
@@ -463,7 +516,7 @@ func checkC12(c *sim.Ctx, h *C12, evs []coop.Event, pkg *C12Pkg, split bool, mus
 			}
 			c.Fail("in-order", "wrong-bytes", "delivery", "stream %d (direction %d) received %d bytes that occur nowhere in its sender's stream", st.id, d.Idx, len(data))
 		}
-		if split || !x.anchored {
+		if split || loose[d.Conn] || !x.anchored {
 			return
 		}
 		if skip == -1 || skip < -1 {
